@@ -195,6 +195,46 @@ func (fr *Frame) localByName(n string, ec *EvalCtx) (Val, bool) {
 				return Val{T: t, S: SInt, G: types.Typ[types.Int]}, true
 			}
 		}
+		if n == "loopint" || n == "loopbool" {
+			// role-based names: the only integer (other than the loop counter) / the only boolean variable carried round the loop
+			var found *ssa.Phi
+			cnt := 0
+			idxTerm, _ := fr.loopIndexTerm(ec.loop)
+			for _, in := range ec.loop.head.Instrs {
+				phi, ok := in.(*ssa.Phi)
+				if !ok {
+					break
+				}
+				b, isB := phi.Type().Underlying().(*types.Basic)
+				if !isB {
+					continue
+				}
+				if n == "loopbool" && b.Kind() != types.Bool {
+					continue
+				}
+				if n == "loopint" {
+					if b.Info()&types.IsInteger == 0 || phi.Comment == "rangeindex" {
+						continue
+					}
+					if v, ok := fr.vals[phi]; ok && v.T == idxTerm {
+						continue
+					}
+				}
+				found = phi
+				cnt++
+			}
+			if cnt == 1 {
+				if ec.inLoopEntry {
+					if v, ok := ec.loop.entryPhi[found]; ok {
+						return v, true
+					}
+				}
+				if v, ok := fr.vals[found]; ok {
+					return v, true
+				}
+			}
+			return Val{}, false
+		}
 		for _, in := range ec.loop.head.Instrs {
 			if phi, ok := in.(*ssa.Phi); ok && phi.Comment == n {
 				if ec.inLoopEntry {
@@ -219,6 +259,41 @@ func (fr *Frame) localByName(n string, ec *EvalCtx) (Val, bool) {
 					}
 					return Val{T: ex.load(ec.mem, et, av.T), S: ex.D.sortOf(et), G: et}, true
 				}
+			}
+		}
+	}
+	// a variable assigned on several paths before the point of use: the phi that merges them and dominates that point
+	{
+		var use *ssa.BasicBlock
+		if ec.at != nil {
+			use = ec.at.Block()
+		} else if ec.loop != nil {
+			use = ec.loop.head
+		}
+		if use != nil {
+			var best *ssa.Phi
+			for _, b := range fr.fn.Blocks {
+				if !b.Dominates(use) {
+					continue
+				}
+				for _, in := range b.Instrs {
+					phi, ok := in.(*ssa.Phi)
+					if !ok {
+						break
+					}
+					if phi.Comment != n {
+						continue
+					}
+					if _, has := fr.vals[phi]; !has {
+						continue
+					}
+					if best == nil || best.Block().Dominates(b) {
+						best = phi
+					}
+				}
+			}
+			if best != nil {
+				return fr.vals[best], true
 			}
 		}
 	}
@@ -1176,6 +1251,10 @@ func (ec *EvalCtx) evalCall(x *ECall) Val {
 		}
 		rs := ex.pureResultSort(ct)
 		fname := fmt.Sprintf("pf_%s_0", sanitize(shortName(ct.Key)))
+		if len(as) == 0 {
+			ex.declFun(fname, "() "+string(rs))
+			return Val{T: fname, S: rs}
+		}
 		ex.declFun(fname, "("+strings.Join(ss, " ")+") "+string(rs))
 		return Val{T: "(" + fname + " " + strings.Join(as, " ") + ")", S: rs}
 	}
